@@ -17,7 +17,7 @@ def hh(e, salt):
 def run(v, tier, seed, replay):
     if replay:
         return suvec.replay(v, replay, "asan")
-    cfg = suvec.bfs_cfg("C14_guard", vecs=3, dims=(2, 3), exts=(1, 2), maxops=2, ops=("add",), next_op="SpecGuard",
+    cfg = suvec.bfs_cfg("C14_guard", vecs=3, dims=(2, 3), exts=(1, 2), maxops=2, ops=("add", "sub", "elementwise"), next_op="SpecGuard",
                         props=("WriteFrame", "ExternalStable", "FailureFrame"))
     r = vlib.tlc("SUVec", cfg, timeout=2400)
     vlib.tlc_ok(r, "C14 guard exploration")
@@ -30,7 +30,7 @@ def run(v, tier, seed, replay):
     def case_id(e):
         a = e["act"]; pos = {n: i for i, n in enumerate(e["ord"])}
         ks = tuple(e["kinds"][pos[a[f]]] if a[f] in pos else "-" for f in ("t", "a", "b"))
-        return (a["name"], a["op"], a["w"], a["d"], a["c"], ks, e["out"])
+        return (a["name"], a["op"], a["w"], a["d"], a["c"], a["arv"], a["brv"], ks, e["out"])
     byid = {}
     for e in edges:
         byid.setdefault(case_id(e), []).append(e)
